@@ -22,7 +22,7 @@ from .core import HarnessError, cjson, digest
 
 PROP = "C14"
 SHAREABLE = ["page", "title", "subline", "page_header", "page_footer", "footnote", "source",
-             "body", "header", "df", "figure"]
+             "body", "header", "df", "figure", "corpus"]
 ABORT_EXCS = ["MemoryError", "KeyboardInterrupt", "ValueError", "InjectedFault"]
 MUTABLE = ["title", "footnote", "source", "page_header", "page_footer", "subline"]
 
@@ -31,7 +31,17 @@ MUTABLE = ["title", "footnote", "source", "page_header", "page_footer", "subline
 # --------------------------------------------------------------------------
 
 
-def gen_plan(rng) -> dict:
+def _corpus_recipe(name: str) -> dict:
+    from . import corpus as _corpus
+
+    return _corpus.recipe_for(name)
+
+
+def gen_plan(rng, corpus_files=None) -> dict:
+    if corpus_files is None:
+        from . import corpus as _corpus
+
+        corpus_files = _corpus.FILES
     t = R.gen_toggles(rng)
     pal = R.gen_palette_of_specs(rng, t)
     nrec = rng.randint(2, 6)
@@ -41,6 +51,10 @@ def gen_plan(rng) -> dict:
         recs.append(R.gen_boundary_recipe(rng, t, pal))
         if rng.random() < 0.6:
             recs.append(R.gen_boundary_recipe(rng, t, pal))
+    if corpus_files and rng.random() < 0.3:
+        # documents the repository's own tests build (harvested from the suite before the batch)
+        for _ in range(rng.choice([1, 1, 2])):
+            recs.append(_corpus_recipe(rng.choice(corpus_files)))
     # equal-valued documents built twice are the sharpest probe for sharing
     if rng.random() < 0.35:
         recs.append(json_copy(rng.choice(recs)))
@@ -76,6 +90,8 @@ def gen_plan(rng) -> dict:
         """Replace one text component of a live document by a freshly built one;
         the document is then equal-valued to a new recipe (appended to the pool)."""
         base = recs[slots[s]]
+        if base["kind"] == "corpus":
+            return False
         comp = rng.choice(MUTABLE)
         spec = dict(rng.choice(pal[comp]))
         if rng.random() < 0.15 and comp != "title":
@@ -170,6 +186,12 @@ INVALID_EDITS = [
 
 
 def make_invalid(rng, rec: dict):
+    if rec["kind"] == "corpus":
+        return None
+    return _make_invalid(rng, rec)
+
+
+def _make_invalid(rng, rec: dict):
     """A recipe whose construction is (probably) rejected - ValueError somewhere in a
     component or document validator; what exactly happens is up to the reference."""
     if rec["kind"] == "figure" and rng.random() < 0.5:
@@ -204,6 +226,8 @@ def make_invalid(rng, rec: dict):
 
 
 def _has_broken_frame(rec) -> bool:
+    if rec["kind"] == "corpus":
+        return False
     for f in rec.get("dfs", []):
         v = f["cols"][0][2]
         if len(v) >= 3 and v[0] == "G1" and v[1] == "G2" and v[2] == "G1":
@@ -253,10 +277,10 @@ def exec_history(arg) -> dict:
 
     def frames_ok():
         bad = []
-        for df, spec in held_frames:
+        for df, expected in held_frames:
             try:
-                if R.frame_snapshot(df) != R.expected_frame_snapshot(spec):
-                    bad.append(digest(spec))
+                if R.frame_snapshot(df) != expected:
+                    bad.append(digest(expected["columns"]))
             except BaseException as e:  # noqa: BLE001
                 bad.append(f"unreadable:{type(e).__name__}")
         return bad
@@ -284,9 +308,14 @@ def exec_history(arg) -> dict:
                                     if state.component_dump(pool.objs[k]) != d})
             if o["k"] == "ok":
                 docs[op["slot"]] = (holder["doc"], holder["frames"], ri)
-                for df, spec in zip(holder["frames"], recs[ri]["dfs"]):
-                    if not any(df is h for h, _ in held_frames):
-                        held_frames.append((df, spec))
+                if recs[ri]["kind"] == "corpus":
+                    for df in holder["frames"]:
+                        if not any(df is h for h, _ in held_frames):
+                            held_frames.append((df, R.frame_snapshot(df)))  # taken before any encode of it
+                else:
+                    for df, spec in zip(holder["frames"], recs[ri]["dfs"]):
+                        if not any(df is h for h, _ in held_frames):
+                            held_frames.append((df, R.expected_frame_snapshot(spec)))
         elif kind in ("encode", "encode_abort"):
             ent = docs.get(op["slot"])
             if ent is None:
@@ -694,7 +723,7 @@ def followup_plans(rng, plan: dict, res: dict, limit: int = 3) -> list:
     rng.shuffle(dirty)
     for ri, ctype in dirty[:limit]:
         base = json_copy(plan["recipes"][ri])
-        if base["kind"] == "figure" and ctype in ("body", "header"):
+        if base["kind"] == "corpus" or (base["kind"] == "figure" and ctype in ("body", "header")):
             continue
         if ctype == "body" and base.get("dfs") and rng.random() < 0.6:
             # explicit widths: the document then keeps the caller's body object instead of a defaulted copy
@@ -826,6 +855,7 @@ def job(j: dict) -> dict:
     out = summarise(plan, res, refs, idx)
     out["violations"] = []
     out["calibrated_docs"] = ncal
+    out["corpus_docs"] = sum(1 for r in plan["recipes"] if r["kind"] == "corpus")
     out["followups"] = 0
     out["followup_checked_encodes"] = 0
     if vs:
@@ -898,6 +928,10 @@ def summarise(plan, res, refs, idx) -> dict:
         "sample": {"ops": [slim_op(o) for o in plan["ops"]],
                    "recipes": [R.recipe_traits(r) for r in plan["recipes"]]} if (idx < 3 or idx % 1000 == 0) else None,
     }
+
+
+def slim_recipe(r):
+    return {k: v for k, v in r.items() if k != "blob_b64"}
 
 
 def slim_op(o):
@@ -991,6 +1025,9 @@ def main(opts) -> int:
     runs = opts.runs or tier["runs"]
     wall = opts.wall or tier["wall"]
     root = opts.seed
+    from . import corpus
+
+    ncorpus = corpus.harvest(os.path.join(opts.root_dir, "corpus"))
     jobs = [{"root": root, "idx": i} for i in range(runs)]
     results, truncated = core.pool_map(job, jobs, wall_cap=wall)
     herrs = [f"run {i}: {r['harness_error'][:600]}" for i, r in sorted(results.items()) if "harness_error" in r]
@@ -1052,14 +1089,14 @@ def main(opts) -> int:
             covinfo = {"available": False}
     wall_s = time.monotonic() - t0
     if not opts.no_evidence:
-        write_evidence(opts, good, len(results), truncated, xres, n_new, n_known, wall_s, herrs, covinfo)
+        write_evidence(opts, good, len(results), truncated, xres, n_new, n_known, wall_s, herrs, covinfo, ncorpus)
     print(f"C14 {opts.tier}: {len(good)} histories, {sum(r['checked_encodes'] for r in good)} checked encodes, "
           f"{n_new} new violation(s), {n_known} known, {len(herrs)} harness error(s), {wall_s:.1f}s"
           + (" [truncated by wall cap]" if truncated else ""))
     return rc
 
 
-def write_evidence(opts, good, nres, truncated, xres, n_new, n_known, wall_s, herrs, covinfo=None):
+def write_evidence(opts, good, nres, truncated, xres, n_new, n_known, wall_s, herrs, covinfo=None, ncorpus=0):
     from . import boot
 
     states, trans, nontriv = set(), set(), set()
@@ -1117,6 +1154,8 @@ def write_evidence(opts, good, nres, truncated, xres, n_new, n_known, wall_s, he
         },
         "histories_by_fault_mode": modes,
         "histories_fault_free": modes.get("none", 0),
+        "corpus_documents_harvested_from_repository_tests": ncorpus,
+        "corpus_documents_used": sum(r.get("corpus_docs", 0) for r in good),
         "measurement_boundary_documents": sum(r.get("calibrated_docs", 0) for r in good),
         "greybox_followups": {"histories": sum(r.get("followups", 0) for r in good),
                               "checked_encodes": sum(r.get("followup_checked_encodes", 0) for r in good),
